@@ -1,5 +1,7 @@
 package state
 
+import "github.com/ProtonMail/gluon/imap"
+
 // VerifNewBareState returns a State without a selected mailbox whose user interface is a stub that panics with
 // "stub missing" on any database / connector access (used by the session dispatch harness).
 func VerifNewBareState() *State {
@@ -7,4 +9,20 @@ func VerifNewBareState() *State {
 	st := verifNewState(user, 1)
 	user.addState(st)
 	return st
+}
+
+// VerifViewEntry is one line of what the session would answer to FETCH 1:* (UID FLAGS).
+type VerifViewEntry struct {
+	UID   imap.UID
+	ID    imap.InternalMessageID
+	Flags int // verifFlagMask without \Recent
+}
+
+// VerifView returns the selected mailbox's snapshot as the session would report it.
+func (m *Mailbox) VerifView() []VerifViewEntry {
+	var out []VerifViewEntry
+	for _, msg := range m.snap.messages.msg {
+		out = append(out, VerifViewEntry{UID: msg.UID, ID: msg.ID.InternalID, Flags: verifFlagMask(msg.flags) &^ vfRecent})
+	}
+	return out
 }
